@@ -293,6 +293,30 @@ def r33_2(ctx, m):
             e = inline_at(cfg, rd, zero_rets[0].id, zero_rets[0].ast.value, depth=2)
             t = src(e)
             ctx.check("R33.2", key, ("count_nonzero" in t or "!= 0" in t) and "tree_reduce" in t and "add" in t, t[:160], fi)
+        # further special cases: keyed by the exact order (norms of order p and -p differ)
+        special = []
+        for n in list(gen_rets):
+            at = [(t, pol) for t, pol in known_atoms(cfg, n.id) if any(isinstance(z, ast.Name) and z.id == od for z in ast.walk(t))
+                  and src(t).replace(" ", "") not in (f"{od}==0", f"0=={od}")]
+            pos = [t for t, pol in at if pol]
+            if pos:
+                special.append((n, pos))
+                gen_rets.remove(n)
+        for n, pos in special:
+            t = pos[0]
+            skey = f"{fi.key}::special case `{src(t)}` is keyed by the exact order"
+            if any(isinstance(z, ast.Call) and call_name(z) in ("abs", "fabs", "absolute") and any(isinstance(q, ast.Name) and q.id == od for q in ast.walk(z))
+                   for z in ast.walk(t)):
+                ctx.bad("R33.2", skey, f"`{src(t)}` sends the orders p and -p into the same branch (`{short(n.ast, 50)}`): for ord=-inf the "
+                                       "flat-array norm is the MINIMUM absolute value", fi, n.ast)
+                continue
+            v = src(n.ast.value)
+            neg = "-" in src(t) and "inf" in src(t)
+            if "inf" in src(t) and isinstance(t, ast.Compare) and isinstance(t.ops[0], ast.Eq):
+                want = "min" if neg else "max"
+                ctx.check("R33.2", skey, True if (want in v and "abs" in v) else None, f"returns `{v[:80]}`", fi, n.ast)
+            else:
+                ctx.und("R33.2", skey, f"returns `{v[:80]}`", fi, n.ast)
         key = f"{fi.key}::p-norms compose: norm(per-leaf norms with the same ord, ord)"
         okk = None
         if len(gen_rets) == 1:
@@ -526,6 +550,21 @@ def r33_5(ctx, m):
     sp = [c for c in ast.walk(us.node) if isinstance(c, ast.Call) and (call_name(c) == "partial" and c.args and src(c.args[0]).endswith("split") or call_name(c) == "split")]
     okk = len(sp) == 1 and any(k.arg == "axis" and src(k.value) == ax for k in sp[0].keywords)
     ctx.check("R33.5", f"{us.key}::splits along `{ax}`", okk if sp else None, src(sp[0]) if sp else None, us)
+    # the number of pieces is the length of the split axis
+    key = f"{us.key}::number of pieces = length of axis `{ax}`"
+    cnt = None
+    if sp:
+        ks = {k.arg: k.value for k in sp[0].keywords}
+        cnt = ks.get("indices_or_sections")
+    defs = [st for st in walk_no_nested(us.node) if isinstance(st, ast.Assign) and cnt is not None and isinstance(cnt, ast.Name)
+            and len(st.targets) == 1 and src(st.targets[0]) == cnt.id]
+    e = defs[0].value if defs else cnt
+    subs = [z for z in ast.walk(e)] if e is not None else []
+    shp = [z for z in subs if isinstance(z, ast.Subscript) and isinstance(z.value, ast.Attribute) and z.value.attr == "shape"]
+    if len(shp) == 1:
+        ctx.check("R33.5", key, src(shp[0].slice) == ax, f"`{src(e)}`" + ("" if src(shp[0].slice) == ax else f": counts along axis {src(shp[0].slice)} whatever `{ax}` is"), us, shp[0])
+    else:
+        ctx.und("R33.5", key, f"piece count `{src(e) if e is not None else None}` not of the form <leaf>.shape[<axis>]", us)
 
 
 _run_c33c = run
@@ -535,3 +574,46 @@ def run(ctx):  # noqa: F811
     _run_c33c(ctx)
     r33_4(ctx, ctx.model)
     r33_5(ctx, ctx.model)
+
+
+# ---------------------------------------------------------------------------------------------------------------- R33.6
+def r33_6(ctx, m):
+    R = "R33.6"
+    ctx.rule(R, "vector_math.where(condition, x, y): the structure every operand is broadcast to is chosen among the structures of ALL "
+                "THREE arguments (a pytree condition with two scalar branches is a legal np.where pattern), and each of the three "
+                "operands is compared against it before the leaf-wise jnp.where", floor=2)
+    mod = m.module(VM)
+    fi = next((f for f in mod.all_functions if f.name == "where" and f.parent is None), None)
+    if fi is None:
+        ctx.und(R, f"{VM}::where", "function missing", mod.relpath)
+        return
+    ctx.saw_func(fi)
+    ps = fi.params()[:3]
+    struct = {}
+    for st in walk_no_nested(fi.node):
+        if isinstance(st, ast.Assign) and len(st.targets) == 1 and isinstance(st.targets[0], ast.Name) and isinstance(st.value, ast.Call) \
+                and call_name(st.value) == "tree_structure" and st.value.args and src(st.value.args[0]) in ps:
+            struct[st.targets[0].id] = src(st.value.args[0])
+    tgt = [st for st in walk_no_nested(fi.node) if isinstance(st, ast.Assign) and len(st.targets) == 1 and isinstance(st.targets[0], ast.Name)
+           and st.targets[0].id not in struct and {struct[z.id] for z in ast.walk(st.value) if isinstance(z, ast.Name) and z.id in struct}]
+    key = f"{fi.key}::broadcast target chosen among condition, x and y"
+    if not tgt or len(struct) != 3:
+        ctx.und(R, key, f"structures {struct}; target selection not found", fi)
+        return
+    st = tgt[0]
+    used = {struct[z.id] for z in ast.walk(st.value) if isinstance(z, ast.Name) and z.id in struct}
+    ctx.check(R, key, used == set(ps), f"`{short(st, 90)}` considers {sorted(used)}" + ("" if used == set(ps) else f"; {sorted(set(ps) - used)} is never a candidate"), fi, st)
+    tn = st.targets[0].id
+    cmp_ = set()
+    for z in walk_no_nested(fi.node):
+        if isinstance(z, ast.Compare) and tn in src(z):
+            cmp_ |= {struct[q.id] for q in ast.walk(z) if isinstance(q, ast.Name) and q.id in struct}
+    ctx.check(R, f"{fi.key}::every operand is compared with the target structure", cmp_ == set(ps), f"compared: {sorted(cmp_)}", fi)
+
+
+_run_c33d = run
+
+
+def run(ctx):  # noqa: F811
+    _run_c33d(ctx)
+    r33_6(ctx, ctx.model)
